@@ -38,7 +38,8 @@ ProbeDoc == XE(N(<<"D", "-", "a">>), <<[nm |-> N(<<"x", "-", "Y">>), v |-> <<"1"
                <<XT(<<"\n">>), XE(N(<<"e", "-", "f">>), <<>>, <<XT(<<" ", "7", " ">>)>>), XE(N(<<"e", "-", "f">>), <<>>, <<XT(<<"<", "v">>)>>), XE(N(<<"g">>), <<>>, <<>>),
                  XE(N(<<"h">>), <<[nm |-> N(<<"k">>), v |-> <<"q">>]>>, <<XT(<<"t", "r", "u", "e">>)>>), XT(<<"\n">>)>>)
 ProbeSeqDoc == XE(NM("p", <<"A">>), <<[nm |-> N(<<"z", "-", "z">>), v |-> <<"1", "&">>]>>,
-                  <<XC(<<"c">>), XE(N(<<"B", "-", "c">>), <<>>, <<XT(<<" ", "v", " ">>)>>), XE(N(<<"d">>), <<>>, <<XT(<<"<", "7">>)>>)>>)
+                  <<XC(<<"c">>), XE(N(<<"B", "-", "c">>), <<>>, <<XT(<<" ", "v", " ">>)>>), XE(N(<<"d">>), <<>>, <<XT(<<"<", "7">>)>>),
+                    XE(N(<<"_", "e">>), <<>>, <<XT(<<"1">>)>>)>>)      \* (a tag that begins with a character some attribute prefixes consist of: the sequence codec knows no attribute prefix)
 ProbeMap == VM(<<"d", "o", "c">> :> VM((<<"-", "x">> :> VS(<<"1">>)) @@ (<<"@", "y">> :> VS(<<"2">>)) @@ (<<"#", "t", "e", "x", "t">> :> VS(<<"t", "<">>))
                   @@ (<<"_", "t", "e", "x", "t">> :> VS(<<"u">>)) @@ (<<"e">> :> VL(<<VS(<<"a">>), VS(<<>>), VM(<<"-", "k">> :> VS(<<"v">>))>>)) @@ (<<"g">> :> EmptyMap)
                   @@ (<<"E">> :> VS(<<"w">>)) @@ (<<"-", "X">> :> VS(<<"3">>))))      \* (keys that differ in case only: byte order whatever the key-folding registers hold)
@@ -83,8 +84,9 @@ StripPfx(o, k) == SubSeq(k, Len(o.attrPrefix) + 1, Len(k))
 JsonProbeResult(o) == VM(("n" :> IF o.jsonUseNumber THEN [t |-> "num", v |-> "1.50"] ELSE VF("1.5")) @@ ("s" :> VS("x")))
 
 \* NewMap key pairs "old:new" are split at ':' whatever the field separator register holds
-NewMapPairs == {"a:p", "a|p"}
+NewMapPairs == {"a:p", "a|p", "a:p+a.id:q"}       \* (the last: TWO pairs in one call, each yielding a list of six values)
 NewMapResult(pr) == IF pr = "a:p" THEN NewMapOp(ProbeQMap, <<[old |-> <<PK("a", -1)>>, new |-> <<"p">>]>>)
+                    ELSE IF pr = "a:p+a.id:q" THEN NewMapOp(ProbeQMap, <<[old |-> <<PK("a", -1)>>, new |-> <<"p">>], [old |-> <<PK("a", -1), PK("id", -1)>>, new |-> <<"q">>]>>)
                     ELSE EmptyMap                                   \* "a|p" is the shorthand for a key that does not exist: skipped
 
 \* a list wider than the initial result capacity (32): ValuesForPath must not depend on the SetArraySize register
